@@ -86,6 +86,9 @@ class RunResult:
              'rejected': self.rejected, 'stats': dict(self.stats),
              'nontrivial': self.nontrivial, 'log_digest': self.log_digest,
              'steps': self.steps, 'nops': len(self.ops)}
+        # 1-in-16 sample of the reference-state digests reached (for a distinct-state estimate)
+        d['state_sample'] = sorted({e[3] for e in self.events
+                                    if len(e) > 3 and isinstance(e[3], str) and e[3][:1] == '0'})
         if with_ops or self.violation:
             d.update(cfg=self.cfg, desc=self.desc, ops=self.ops)
         return d
